@@ -9,7 +9,7 @@ import (
 func init() { register("C03", propC03) }
 
 func propC03(c *Ctx) {
-	c.Explanation = "Decides admission and reset construction as dominance / def-use facts for all inputs: (H1) endpoints are sent on acceptedChan only by deliverAccepted (and Listen's re-queue of already admitted ones); (H2) deliverAccepted is called only after createEndpointAndPerformHandshake returned nil error - whose success return is dominated by handshake.execute()==nil - or, in SYN-cookie mode, only for a segment whose flags are exactly ACK, whose cookie validates and decodes to an MSS index inside the table, after createConnectedEndpoint succeeded, with iss = ack-1 and irs = seq-1; (H3) handshake.state becomes Completed only under checkAck==true, with ACK set (SYN-RCVD) or SYN and ACK set (SYN-SENT); (H4) checkAck's complete decision table over {ACK set, ack == iss+1} is !(ACK && ack != iss+1), and on the false result exactly one RST|ACK is sent whose sequence number is the offending acknowledgement number; (H5) replyWithReset sends RST|ACK with seq = the segment's ack number (0 without ACK) and ack = seq+logical length; HandleUnknownDestinationPacket replies exactly once and never to a RST; (H6) the listener dispatches on the whole flag byte (== SYN, == ACK), not on a mask; (H7) the SYN-cookie pipeline keeps 32 bits end to end: no lossy integer narrowing in encodeMSS/createCookie/isCookieValid and the validated data is compared as decoded. NOT decided: strength of the cookie hash, behaviour over sequences of handshake segments, cookie expiry timing."
+	c.Explanation = "Decides admission and reset construction as dominance / def-use facts for all inputs: (H1) endpoints are sent on acceptedChan only by deliverAccepted (and Listen's re-queue of already admitted ones); (H2) deliverAccepted is called only after createEndpointAndPerformHandshake returned nil error - whose success return is dominated by handshake.execute()==nil - or, in SYN-cookie mode, only for a segment whose flags are exactly ACK, whose cookie validates and decodes to an MSS index inside the table, after createConnectedEndpoint succeeded, with iss = ack-1 and irs = seq-1; (H3) handshake.state becomes Completed only under checkAck==true, with ACK set (SYN-RCVD) or SYN and ACK set (SYN-SENT); (H4) checkAck's complete decision table over {ACK set, ack == iss+1} is !(ACK && ack != iss+1), and on the false result exactly one RST|ACK is sent whose sequence number is the offending acknowledgement number; (H5) replyWithReset sends RST|ACK with seq = the segment's ack number (0 without ACK) and ack = seq+logical length; HandleUnknownDestinationPacket replies exactly once and never to a RST; (H6) the listener dispatches on the whole flag byte (== SYN, == ACK), not on a mask; (H7) the SYN-cookie pipeline keeps 32 bits end to end: no lossy integer narrowing in encodeMSS/createCookie/isCookieValid and the validated data is compared as decoded. (H8) the length used for a reset's ACK number counts SYN and FIN separately (shared path table of logicalLen); H3 also tables the initial handshake states (resetState, resetToSynRcvd). NOT decided: strength of the cookie hash, behaviour over sequences of handshake segments, cookie expiry timing."
 	hs := "(*tcp.handshake)."
 	ep := "(*tcp.endpoint)."
 	rst, ack, syn := "(*tcp.segment).flagIsSet($1, 4)", "(*tcp.segment).flagIsSet($1, 16)", "(*tcp.segment).flagIsSet($1, 2)"
@@ -111,6 +111,22 @@ func propC03(c *Ctx) {
 			{Kind: "return", Target: "", Args: []string{"tcpip.ErrConnectionRefused"}, Guards: []string{rst, "seqnum.Value.InWindow($1.sequenceNumber, $0.ackNum, $0.rcvWnd)"}, Exact: true, N: 1, Why: "a RST is honoured only inside the receive window"},
 		})
 	}
+	if fn := c.Fn(h3, hs+"resetState"); fn != nil {
+		c.CheckSitesPresent(h3, fn, []SiteSpec{
+			{Kind: "store", Target: "tcp.handshake.state", Args: []string{"$0", "0"}, N: 1, Why: "an active open starts in SYN-SENT"},
+			{Kind: "store", Target: "tcp.handshake.flags", Args: []string{"$0", "2"}, N: 1, Why: "... sending a bare SYN"},
+			{Kind: "store", Target: "tcp.handshake.ackNum", Args: []string{"$0", "0"}, N: 1, Why: "... acknowledging nothing"},
+		})
+	}
+	if fn := c.Fn(h3, hs+"resetToSynRcvd"); fn != nil {
+		c.CheckSitesPresent(h3, fn, []SiteSpec{
+			{Kind: "store", Target: "tcp.handshake.active", Args: []string{"$0", "false"}, Guards: []string{}, Exact: true, N: 1, Why: "passive open"},
+			{Kind: "store", Target: "tcp.handshake.state", Args: []string{"$0", "1"}, Guards: []string{}, Exact: true, N: 1, Why: "a listener's handshake starts in SYN-RCVD"},
+			{Kind: "store", Target: "tcp.handshake.flags", Args: []string{"$0", "18"}, Guards: []string{}, Exact: true, N: 1, Why: "... sending SYN|ACK"},
+			{Kind: "store", Target: "tcp.handshake.iss", Args: []string{"$0", "$1"}, Guards: []string{}, Exact: true, N: 1, Why: "our initial sequence number is the one handed in (the cookie in cookie mode)"},
+			{Kind: "store", Target: "tcp.handshake.ackNum", Args: []string{"$0", "($2 + 1)"}, Guards: []string{}, Exact: true, N: 1, Why: "we acknowledge the peer's SYN: irs + 1"},
+		})
+	}
 	c.OnlyIn(h3, "store handshake.state=Completed", filterStores(c.FieldStores("tcp.handshake", "state"), "2"), hs+"synSentState", hs+"synRcvdState")
 
 	h4 := c.Rule("H4", "K9 decision table + K5", "checkAck == !(ACK && ack != iss+1); RST with seq = the bad ack number", 5)
@@ -148,6 +164,9 @@ func propC03(c *Ctx) {
 				Why: "exactly one reply, for a parsed segment that is not itself a RST"},
 		})
 	}
+
+	h8 := c.Rule("H8", "K9 path table (shared with C01/R6, C02/W7)", "a segment's sequence-space length = payload + SYN + FIN: the ACK number of a reset answering a stray segment", 5)
+	logicalLenRule(c, h8)
 
 	h7 := c.Rule("H7", "K8 narrowing + K12 types", "SYN-cookie pipeline keeps 32 bits", 4)
 	an := NewAbsint(c.P)
